@@ -16,7 +16,8 @@ RULE = ("inputs = for each base path (rendering of one universe Sid per path-typ
         "an empty value (desynchronising repeated fields), substitute all occurrences, change each literal template part "
         "(separator, fixed folder renamed / removed / lower-cased, the extension dot), drop / duplicate each path "
         "component, append '/x', '/', newline, an extension, remove the last component, swap the root for the other "
-        "configuration's, a foreign path. Each evaluated cold and after the other configuration resolved the same string. "
+        "configuration's, a foreign path. Each evaluated cold, after the other configuration resolved the same string, and (paths "
+        "holding '?' or ':') after the Sid that the result's string denotes was asked for its path. "
         "distinct = distinct (path, configuration); non-trivial = differs from a valid path by <= k edits (all).")
 ASSUMPTIONS = ["a typed result must satisfy str(result.path(c)) == p (the statement says 'exactly p'; '//' or a trailing '/' are other strings)"]
 
@@ -45,7 +46,7 @@ def other_values(ref, pr, typ, key, cur):
     vals = [pr.to_path_value(key, v) for v in ref.accepted(typ, i, pool) if v not in ("*", ">")]
     if ref.templates[typ][i][1] is None:
         # free text: also characters that mean something in a Sid string (query, uri, or-list, glob)
-        return [v for v in ["other", "my_hero", "what?", "x?%s=y" % key, "a:b", "a,b", "ab*", "ab c", ">"] if v != cur]
+        return [v for v in ["other", "my_hero", "what?", "x?%s=y" % key, "x?bogus=1", "x?%s=bogus!" % keys[0], "a:b", "a,b", "ab*", "ab c", ">"] if v != cur]
     return [v for v in vals if v != cur][:2] or ["zz"]
 
 
@@ -146,6 +147,17 @@ def check_case(ref, prefs, owners, case):
                         Sid(path=p, config=o)
                     except Exception:  # noqa
                         pass
+        if order == "after-string-sid":
+            # the Sid that the resulting *string* denotes (a value holding '?' or ':' reads as a query / a type prefix) is
+            # asked for its path first: what one Sid answered must not be served to another one
+            x0 = Sid(path=p, config=c)
+            if x0:
+                for txt in (x0.string, x0.uri):
+                    try:
+                        z = Sid(txt)
+                        z.path(c), z.path(config=c), z.path()
+                    except Exception:  # noqa
+                        pass
         x = Sid(path=p, config=c)
     except Exception as e:  # noqa
         sig = f"exception/{type(e).__name__}"
@@ -165,6 +177,11 @@ def check_case(ref, prefs, owners, case):
                 y = Sid(path=p, config=c)
                 if not y or (y.path(c) is not None and str(y.path(c)) == p):
                     sig += "/answer-of-other-configuration-served"
+            if order == "after-string-sid":
+                env.reset()
+                y = Sid(path=p, config=c)
+                if not y or (y.path(c) is not None and str(y.path(c)) == p):
+                    sig += "/path-of-the-sid-its-string-denotes-served"
             if not sig.endswith("served"):
                 if p.endswith("\n"):
                     sig += "/trailing-newline"
@@ -263,7 +280,9 @@ def run_shard(sh):
         p = encode(prefs, p)
         if not rec.mine(c + "|" + p):
             continue
-        for order in ("cold", "after-other"):
+        for order in ("cold", "after-other", "after-string-sid"):
+            if order == "after-string-sid" and not any(ch in p for ch in "?:"):
+                continue        # string and fields denote the same Sid: nothing another Sid could have answered
             viols, cls = check_case(ref, prefs, owners, [p, c, order])
             rec.case(cls + "/" + order, True, sample=[p, c, order])
             for v in viols:
